@@ -306,4 +306,9 @@ def replay(path):
     return rc
 
 if __name__ == '__main__':
-    sys.exit(main(sys.argv))
+    try:
+        rc = main(sys.argv)
+    except Unsupported as e:
+        # fail closed: something the engine cannot execute (unmodelled callee, unknown MIR form) is never a verdict
+        print(f'INCONCLUSIVE: {e}'); rc = 2
+    sys.exit(rc)
